@@ -211,7 +211,7 @@ func checkC13(r *Run) {
 	msgDrv.init()
 	hdrPool := []string{"From: <sip:a@b>;tag=1\r\n", "To: <sip:c@d>\r\n", "Call-ID: c1@1.2.3.4\r\n", "CSeq: 3 INVITE\r\n", "Via: SIP/2.0/UDP h;branch=z9hG4bK1\r\n", "Max-Forwards: 70\r\n",
 		"Contact: <sip:1@h>;expires=9\r\n", "m: <sip:2@h>;expires=3, <sip:3@h>\r\n", "Contact: \"x\" <sip:4@h>;q=0.2,\r\n <sip:5@h>;expires=100\r\n", "P-Asserted-Identity: <sip:p@q>, <tel:+1>\r\n", "P-Asserted-Identity: <sip:p3@q>,<sip:p4@q>\r\n",
-		"Expires: 50\r\n", "User-Agent: u\r\n", "X: y\r\n", "From: <sip:second@x>;tag=2\r\n", "Content-Length: 2\r\n"}
+		"Expires: 50\r\n", "User-Agent:\r\n", "X: y\r\n", "Record-Route:\r\n", "From: <sip:second@x>;tag=2\r\n", "Route: \r\n", "Content-Length: 2\r\n"}
 	// messages: all ordered selections of up to 6 header lines would be too many; take every combination of <= K lines in pool order plus rotations
 	var msgs []string
 	K := r.pick(4, 6)
